@@ -244,6 +244,55 @@ func (c *ctx) selectStmt() (string, string) {
 	return "SELECT " + strings.Join(cols, ", ") + " FROM t WHERE id <= 3 UNION ALL SELECT " + strings.Join(cols, ", ") + " FROM t WHERE id > 237", "union"
 }
 
+// leadingColumnsEqual: the first k columns of q1's result must be cell for cell what q0 returns — adding a
+// (read-only) expression to the select list must not change what the other columns show.
+func (c *ctx) leadingColumnsEqual(q0, q1 string, k int) (string, bool) {
+	v0, e0 := c.pr.Query(q0)
+	v1, e1 := c.pr.Query(q1)
+	c.evals += 2
+	if e0 != nil || e1 != nil {
+		if (e0 == nil) != (e1 == nil) && e0 == nil {
+			return "", true // the extra expression itself fails: no statement about the other columns
+		}
+		return "", true
+	}
+	if v0.RecordLen() != v1.RecordLen() {
+		return fmt.Sprintf("%d rows without, %d rows with the extra column", v0.RecordLen(), v1.RecordLen()), false
+	}
+	for i := range v0.RecordSet {
+		for j := 0; j < k && j < len(v0.RecordSet[i]) && j < len(v1.RecordSet[i]); j++ {
+			a, b := v0.RecordSet[i][j][0].String(), v1.RecordSet[i][j][0].String()
+			if a != b {
+				return fmt.Sprintf("row %d column %d: %s without the extra column, %s with it", i+1, j+1, a, b), false
+			}
+		}
+	}
+	return "", true
+}
+
+// specialColumn: functions with an evaluation path of their own, over plain column references in every order
+func (c *ctx) specialColumn() string {
+	cols := []string{"id", "grp", "n", "f", "s", "s2", "d"}
+	perm := c.g.Perm(len(cols))
+	k := 1 + c.g.Intn(4)
+	var args []string
+	for _, i := range perm[:k] {
+		args = append(args, cols[i])
+	}
+	switch c.g.Intn(5) {
+	case 0, 1, 2:
+		return "JSON_OBJECT(" + strings.Join(args, ", ") + ")"
+	case 3:
+		return "JSON_OBJECT(" + args[0] + " AS k1" + func() string {
+			if len(args) > 1 {
+				return ", " + args[1] + " AS k2"
+			}
+			return ""
+		}() + ")"
+	}
+	return "JSON_OBJECT()"
+}
+
 func (c *ctx) nt(sg string) {
 	if c.sigSeen == nil {
 		c.sigSeen = map[string]bool{}
@@ -773,9 +822,18 @@ func runChild(seed int64, n int, dir string, withCorpus bool) {
 			c.nt(fmt.Sprintf("corpus/%d/%v/%v", ci, e1 != nil, c.poison))
 		}
 	}
+	if withCorpus {
+		for _, extra := range []string{"JSON_OBJECT(grp, id)", "JSON_OBJECT(n, s)", "JSON_OBJECT(s2, grp, id)", "JSON_OBJECT(n)", "JSON_OBJECT()", "NOW()"} {
+			q0 := "SELECT id, grp, n, s FROM t ORDER BY id"
+			q1 := "SELECT id, grp, n, s, " + extra + ", grp, id FROM t ORDER BY id"
+			if diff, same := c.leadingColumnsEqual(q0, q1, 4); !same {
+				o.Law("extra_column_changes_others", map[string]string{"without": q0, "with": q1, "difference": diff})
+			}
+		}
+	}
 	for it := 0; it < n; it++ {
 		c.seq++
-		kind := []string{"plain", "plain", "while", "udf", "prepared", "reread_table", "reread_cursor", "reread_variable", "dtcell", "fromlist", "dml_alias", "uda_pool"}[it%12]
+		kind := []string{"plain", "plain", "while", "udf", "prepared", "reread_table", "reread_cursor", "reread_variable", "dtcell", "fromlist", "dml_alias", "uda_pool", "extra_column"}[it%13]
 		o.Count("kind:" + kind)
 		switch kind {
 		case "plain":
@@ -894,6 +952,43 @@ func runChild(seed int64, n int, dir string, withCorpus bool) {
 				}
 			}
 			c.nt("uda_pool")
+		case "extra_column":
+			lead := []string{"id", "grp", "n", "s", "s2", "f"}
+			pm := c.g.Perm(len(lead))
+			l3 := []string{lead[pm[0]], lead[pm[1]], lead[pm[2]]}
+			var q0, q1, what string
+			switch c.g.Intn(6) {
+			case 0, 1, 2:
+				what = c.specialColumn()
+				q0 = "SELECT " + strings.Join(l3, ", ") + " FROM t ORDER BY id"
+				q1 = "SELECT " + strings.Join(l3, ", ") + ", " + what + ", " + l3[0] + " FROM t ORDER BY id"
+			case 3:
+				what = c.expr(c.pickType(), rowAtoms, 2)
+				q0 = "SELECT " + strings.Join(l3, ", ") + " FROM t ORDER BY id"
+				q1 = "SELECT " + strings.Join(l3, ", ") + ", " + what + " FROM t ORDER BY id"
+			case 4:
+				what = c.g.Pick("LISTAGG(s, ',') WITHIN GROUP (ORDER BY n + 1, id)", "JSON_AGG(s2) WITHIN GROUP (ORDER BY s || 'x' DESC, id)", "LISTAGG(DISTINCT s2) WITHIN GROUP (ORDER BY s2)", "MEDIAN(n * 2)")
+				q0 = "SELECT grp, COUNT(*), MIN(n), MAX(s) FROM t GROUP BY grp ORDER BY grp"
+				q1 = "SELECT grp, COUNT(*), MIN(n), MAX(s), " + what + " FROM t GROUP BY grp ORDER BY grp"
+				l3 = []string{"grp", "COUNT(*)", "MIN(n)", "MAX(s)"}
+			default:
+				what = c.g.Pick("LISTAGG(s, ',') OVER (PARTITION BY grp ORDER BY n + 1, id)", "NOW()", "JSON_AGG(n) OVER (PARTITION BY grp)", "NTH_VALUE(s, 2) OVER (PARTITION BY grp ORDER BY id)")
+				q0 = "SELECT " + strings.Join(l3, ", ") + " FROM t ORDER BY id"
+				q1 = "SELECT " + strings.Join(l3, ", ") + ", " + what + " FROM t ORDER BY id"
+			}
+			if diff, same := c.leadingColumnsEqual(q0, q1, len(l3)); !same {
+				o.Law("extra_column_changes_others", map[string]string{"without": q0, "with": q1, "difference": diff})
+			}
+			r1, e1 := c.execChecked(q1+";", "plain")
+			r2, e2 := c.execChecked(q1+";", "plain")
+			if canon(r1, e1) != canon(r2, e2) {
+				o.Law("repeat_eval:plain", map[string]string{"sql": q1, "first": canon(r1, e1), "second": canon(r2, e2), "first_error": errText(e1), "second_error": errText(e2)})
+			}
+			again, e := c.execChecked("SELECT * FROM t ORDER BY id; SELECT * FROM t2;", "reread_table")
+			if e != nil || again != baseline {
+				o.Law("reread:table", map[string]string{"second": canon(again, e), "after": q1})
+			}
+			c.nt(fmt.Sprintf("extra_column/%s/%v", strings.SplitN(what, "(", 2)[0], e1 != nil))
 		case "dtcell":
 			// functions applied to datetime-typed cells and variables, twice; then the cells are read again
 			k := 1 + c.g.Intn(3)
